@@ -61,7 +61,13 @@ impl<M: MetaKind> DataLayer<M> {
             let (n, h) = f.split_once('=').unwrap();
             let fp = layer_path.join(os(&unhex(n).unwrap()));
             if let Ok(md) = std::fs::symlink_metadata(&fp) { if md.is_dir() { std::fs::remove_dir_all(&fp).unwrap(); } else { std::fs::remove_file(&fp).unwrap(); } }
-            if h == "*" { std::fs::create_dir(&fp).unwrap(); } else { std::fs::write(&fp, unhex(h).unwrap()).unwrap(); }
+            // `*` a directory; `@D` / `@F` / `@x` a symlink to a directory / a file / nothing (targets outside the layers directory)
+            let outside = self.srcs.parent().unwrap();
+            match h { "*" => std::fs::create_dir(&fp).unwrap(),
+                "@D" => std::os::unix::fs::symlink(outside.join("somedir"), &fp).unwrap(),
+                "@F" => std::os::unix::fs::symlink(outside.join("somefile"), &fp).unwrap(),
+                "@x" => std::os::unix::fs::symlink(outside.join("nowhere"), &fp).unwrap(),
+                _ => std::fs::write(&fp, unhex(h).unwrap()).unwrap() }
         }
         let mut b = LayerResultBuilder::new(M::mk(p[0]));
         if p[1] != "~" {
@@ -125,7 +131,7 @@ fn dir_snap(root: &Path) -> String {
             let name = hex(e.file_name().as_bytes());
             let p = if pre.is_empty() { name } else { format!("{pre}/{name}") };
             let ft = e.file_type().unwrap();
-            if ft.is_symlink() { out.push(format!("L {p}")); }
+            if ft.is_symlink() { let t = e.path(); out.push(format!("L {p} {}", if t.is_dir() { "D" } else if t.exists() { "F" } else { "x" })); }
             else if ft.is_dir() { out.push(format!("D {p}")); walk(&e.path(), &p, out); }
             else { out.push(format!("F {p} {}", hex(&std::fs::read(e.path()).unwrap()))); }
         }
@@ -157,9 +163,10 @@ fn snapshot_layers(layers: &Path, names: &[Vec<u8>]) -> String {
     }
     // anything else in the layers directory that is not accounted for
     let mut extra = vec![];
+    let mut known: std::collections::HashSet<String> = std::collections::HashSet::new();
+    for n in names { let n = String::from_utf8_lossy(n).to_string(); known.insert(format!("{n}.toml")); for s in FMT_SUFFIX { known.insert(format!("{n}.sbom.{s}")); } known.insert(n); }
     for e in std::fs::read_dir(layers).unwrap() { let f = e.unwrap().file_name().to_string_lossy().to_string();
-        let known = names.iter().any(|n| { let n = String::from_utf8_lossy(n).to_string(); f == n || f == format!("{n}.toml") || FMT_SUFFIX.iter().any(|s| f == format!("{n}.sbom.{s}")) });
-        if !known { extra.push(hex(f.as_bytes())); } }
+        if !known.contains(&f) { extra.push(hex(f.as_bytes())); } }
     extra.sort();
     if !extra.is_empty() { parts.push(format!("EXTRA:{}", extra.join(","))); }
     join("&", &parts)
@@ -225,6 +232,7 @@ fn run_case(f: &[String]) -> String {
     let layers = tmp.path().join("layers");
     std::fs::create_dir(&layers).unwrap();
     let srcs = tmp.path().join("srcs"); std::fs::create_dir(&srcs).unwrap();
+    std::fs::create_dir(tmp.path().join("somedir")).unwrap(); std::fs::write(tmp.path().join("somefile"), b"x").unwrap();
     let ctx = build_context(&layers, tmp.path());
     let names: Vec<Vec<u8>> = split_list(&f[0], ",").iter().map(|n| unhex(n).unwrap()).collect();
     let mut steps = vec![];
@@ -293,17 +301,37 @@ fn render(meta: &str, p: &Parts) -> String {
     format!("{meta}!{}!{}!{}!{}", p.env.as_ref().map_or("~".to_string(), |e| join(",", e)), join("+", &p.execd), join("+", &p.sboms), join("+", &p.files))
 }
 fn scope_of(e: &str) -> &str { e.split('/').next().unwrap() }
-fn rnd_entry(r: &mut Rng) -> String { format!("{}/{}/{}/{}", r.pick(&SCOPES), r.pick(&["a", "d", "m", "o", "p"]), hex(r.pick(&["P", "Q.x", "PATH"]).as_bytes()), hex(r.pick(&["", "v", "/x", ":"]).as_bytes())) }
-fn rnd_prog(r: &mut Rng) -> String { format!("{}={}", hex(format!("p{}", r.below(3)).as_bytes()), hex(&[b'0' + r.below(9) as u8])) }
-fn rnd_file(r: &mut Rng) -> String { let n = *r.pick(&["f1", "f2", "bin", "lib", "data"]); if (n == "bin" || n == "lib") && r.chance(3, 4) { format!("{}=*", hex(n.as_bytes())) } else { format!("{}={}", hex(n.as_bytes()), hex(&[b'A' + r.below(20) as u8])) } }
+/// further process types (named like the phases; with dots, dashes, digits), further variable names (lower case, a name that
+/// ends like a behaviour suffix, non-UTF-8, with `=`), further values (non-UTF-8, line break, blank, long)
+const SCOPES_X: [&str; 4] = ["P:6275696c64", "P:6c61756e6368", "P:772d312e78", "P:31"];
+const ENV_NAMES_X: [&[u8]; 6] = [b"lower", b"X.append", b"N\xff", b"A=B", b"LD_LIBRARY_PATH", b"CPATH"];
+const ENV_VALS_X: [&[u8]; 5] = [b"\xff\xfe", b"a\nb", b"a b", b"::", b"/x:/y:"];
+const PROG_NAMES_X: [&str; 5] = ["a.b", "with-dash", "\u{fc}", "UPPER", "0"];
+const INTS: [i64; 8] = [0, 1, -1, 7, 49, i64::MAX, i64::MIN, 1 << 53];
+fn content_pool() -> Vec<Vec<u8>> { vec![vec![], b"x".to_vec(), b"{\"k\":1}".to_vec(), vec![0xff, 0x00, 0xfe], vec![b'z'; 300], b"line\nline\n".to_vec()] }
+fn rnd_content(r: &mut Rng, base: u8) -> String { if r.chance(1, 6) { hex(r.pick::<Vec<u8>>(&content_pool())) } else { hex(&[base + r.below(20) as u8]) } }
+
+fn rnd_entry(r: &mut Rng) -> String {
+    let sc = if r.chance(1, 8) { *r.pick(&SCOPES_X) } else { *r.pick(&SCOPES) };
+    let name: &[u8] = if r.chance(1, 6) { *r.pick::<&[u8]>(&ENV_NAMES_X) } else { r.pick(&["P", "Q.x", "PATH"]).as_bytes() };
+    let val: &[u8] = if r.chance(1, 6) { *r.pick::<&[u8]>(&ENV_VALS_X) } else { r.pick(&["", "v", "/x", ":"]).as_bytes() };
+    format!("{sc}/{}/{}/{}", r.pick(&["a", "d", "m", "o", "p"]), hex(name), hex(val))
+}
+fn rnd_prog(r: &mut Rng) -> String { let n = if r.chance(1, 5) { r.pick(&PROG_NAMES_X).to_string() } else { format!("p{}", r.below(3)) }; format!("{}={}", hex(n.as_bytes()), if r.chance(1, 6) { hex(r.pick::<Vec<u8>>(&content_pool())) } else { hex(&[b'0' + r.below(9) as u8]) }) }
+fn rnd_file(r: &mut Rng) -> String {
+    let n = *r.pick(&["f1", "f2", "bin", "lib", "data", "include", "pkgconfig", ".hidden", "with space"]);
+    if matches!(n, "bin" | "lib" | "include" | "pkgconfig") && r.chance(3, 4) { format!("{}={}", hex(n.as_bytes()), if r.chance(1, 3) { *r.pick(&["@D", "@D", "@F", "@x"]) } else { "*" }) }
+    else if n == "data" && r.chance(1, 4) { format!("{}={}", hex(n.as_bytes()), r.pick(&["@D", "@F", "@x", "*"])) }
+    else { format!("{}={}", hex(n.as_bytes()), rnd_content(r, b'A')) }
+}
 fn key_of(x: &str) -> &str { x.split('=').next().unwrap() }
 /// keep at most one element per key (exec.d names and SBOM formats are map keys / one file each)
 fn uniq(v: Vec<String>) -> Vec<String> { let mut out: Vec<String> = vec![]; for x in v { if let Some(i) = out.iter().position(|y| key_of(y) == key_of(&x)) { out[i] = x; } else { out.push(x); } } out }
 
 fn fresh_parts(r: &mut Rng) -> Parts {
-    let env = match r.below(6) { 0 => None, 1 | 2 => Some(ENV_RICH.split(',').map(str::to_string).collect()), _ => { let k = r.below(7); Some((0..k).map(|_| rnd_entry(r)).collect()) } };
-    let execd = if r.chance(2, 5) { vec![] } else { let k = 1 + r.below(2); uniq((0..k).map(|_| rnd_prog(r)).collect()) };
-    let mut sboms = vec![]; for i in 0..3 { if r.chance(1, 3) { sboms.push(format!("{i}={}", hex(&[b'a' + r.below(20) as u8]))); } }
+    let env = match r.below(6) { 0 => None, 1 | 2 => Some(ENV_RICH.split(',').map(str::to_string).collect()), _ => { let k = if r.chance(1, 12) { 8 + r.below(30) } else { r.below(7) }; Some((0..k).map(|_| rnd_entry(r)).collect()) } };
+    let execd = if r.chance(2, 5) { vec![] } else { let hi = if r.chance(1, 6) { 5 } else { 2 }; let k = 1 + r.below(hi); uniq((0..k).map(|_| rnd_prog(r)).collect()) };
+    let mut sboms = vec![]; for i in 0..3 { if r.chance(1, 3) { sboms.push(format!("{i}={}", rnd_content(r, b'a'))); } }
     let k = r.below(3); let files = (0..k).map(|_| rnd_file(r)).collect();
     Parts { env, execd, sboms, files }
 }
@@ -330,7 +358,7 @@ fn derive(r: &mut Rng, p: &Parts) -> Parts {
             match r.below(10) {
                 0 | 1 => {}
                 2..=5 => { // drop a whole scope, a process scope twice as likely
-                    let mut present: Vec<&str> = vec![]; for sc in SCOPES { if e.iter().any(|x| scope_of(x) == sc) { present.push(sc); if sc.starts_with("P:") { present.push(sc); } } }
+                    let mut present: Vec<String> = vec![]; for x in e.iter() { let sc = scope_of(x).to_string(); if !present.contains(&sc) { if sc.starts_with("P:") { present.push(sc.clone()); } present.push(sc); } }
                     if !present.is_empty() { let sc = r.pick(&present).to_string(); e.retain(|x| scope_of(x) != sc); }
                 }
                 6 => if !e.is_empty() { let i = r.below(e.len() as u64) as usize; e.remove(i); },
@@ -344,10 +372,11 @@ fn derive(r: &mut Rng, p: &Parts) -> Parts {
     Parts { env, ..derive_sets(r, p) }
 }
 fn derive_sets(r: &mut Rng, p: &Parts) -> Parts {
-    Parts { env: None, execd: edit_set(r, &p.execd, &mut rnd_prog, true), sboms: edit_set(r, &p.sboms, &mut |r| format!("{}={}", r.below(3), hex(&[b'a' + r.below(20) as u8])), true), files: edit_set(r, &p.files, &mut rnd_file, false) }
+    Parts { env: None, execd: edit_set(r, &p.execd, &mut rnd_prog, true), sboms: edit_set(r, &p.sboms, &mut |r| format!("{}={}", r.below(3), rnd_content(r, b'a')), true), files: edit_set(r, &p.files, &mut rnd_file, false) }
 }
 
 fn rnd_meta(r: &mut Rng, mt: &str, xkeys: &mut bool) -> String {
+    if r.chance(1, 10) { let i = *r.pick(&INTS); return if mt == "V" { format!("{i}_~") } else if r.chance(1, 2) { format!("~_{i}") } else { format!("{i}_~") }; }
     if mt == "V" { format!("{}_~", r.below(50)) } else { match r.below(20) { 0 => { *xkeys = true; format!("{}_{}", r.below(50), r.below(50)) } 1..=5 => "~".into(), 6..=9 => format!("~_{}", r.below(50)), 10..=12 => "~_~".into(), _ => format!("{}_~", r.below(50)) } }
 }
 
@@ -361,7 +390,7 @@ fn rnd_result(r: &mut Rng, mt: &str, xkeys: &mut bool, base: Option<&Parts>) -> 
 }
 
 fn generate(tier: &str, seed: u64, emit: &mut dyn FnMut(Case)) {
-    let mk = |names: &[&str], ops: Vec<String>, kind: &str, xkeys: bool| {
+    let mk = |names: &[&str], ops: Vec<String>, kind: &str, xkeys: bool| -> Case {
         let nt = nontrivial(&ops);
         let nh = ops.iter().filter(|o| o.starts_with('H')).count();
         Case { fields: vec![names.join(","), join(";", &ops)], tags: vec![("kind".into(), kind.into()), ("len".into(), ops.len().min(10).to_string()), ("restores".into(), ops.iter().filter(|o| *o == "R").count().min(4).to_string()), ("handles".into(), nh.min(9).to_string()), ("procenv".into(), u8::from(has_process_env(&ops)).to_string()), ("xkeys".into(), u8::from(xkeys).to_string()), ("dotted".into(), u8::from(names.len() > 1 && names.iter().all(|n| n.starts_with(names[0]))).to_string())], nontrivial: nt }
@@ -397,19 +426,123 @@ fn generate(tier: &str, seed: u64, emit: &mut dyn FnMut(Case)) {
         let res = render("~_9", &Parts { env: full.env.clone(), execd: sub(&full.execd, xm), sboms: sub(&full.sboms, sm), files: if keep_files { full.files.clone() } else { vec![] } });
         emit(mk(&[&a, &at], vec![first.clone(), h(&a, "111", "G", "u", "r", &res, &res)], "sets", false));
     } } }
-    // 5. directed family "dotted": three layers whose names share a dotted prefix, each populated, restored, then kept /
-    //    updated / recreated one at a time in every order of the three strategies
-    for (s1, s2, s3) in [("k", "u", "r"), ("k", "r", "u"), ("u", "k", "r"), ("u", "r", "k"), ("r", "k", "u"), ("r", "u", "k")] { for ty in ["111", "101"] {
-        let ops = vec![h(&a, ty, "G", "k", "r", &rich("1_~"), &upd("2_~")), h(&at, ty, "V", "k", "r", &rich("3_~"), &upd("4_~")), h(&asb, ty, "G", "k", "r", &rich("~_5"), &upd("~_6")), "R".into(),
-            h(&at, ty, "V", s1, "r", &upd("7_~"), &upd("8_~")), h(&asb, ty, "G", s2, "r", &small("~"), &upd("~_9")), h(&a, ty, "G", s3, "r", &small("1_~"), &small("~")), "R".into(),
-            h(&asb, "111", "G", "k", "r", &small("~"), &small("~"))];
-        emit(mk(&[&a, &at, &asb], ops, "dotted", false));
+    // 5. directed family "dotted": three layers whose names are correlated (dotted prefix, another layer's file stem, case, one
+    //    edit, unusual characters, long), each populated, restored, then kept / updated / recreated one at a time in every order
+    let pools = name_pools();
+    for (pname, pool) in &pools {
+        let hn: Vec<String> = pool.iter().map(|n| hex(n.as_bytes())).collect();
+        let (a, at, asb) = (&hn[0], &hn[1], &hn[2]);
+        for (s1, s2, s3) in [("k", "u", "r"), ("k", "r", "u"), ("u", "k", "r"), ("u", "r", "k"), ("r", "k", "u"), ("r", "u", "k")] { for ty in ["111", "101"] {
+            if *pname != "dotted" && ty == "101" && s1 != "r" { continue; }
+            let ops = vec![h(a, ty, "G", "k", "r", &rich("1_~"), &upd("2_~")), h(at, ty, "V", "k", "r", &rich("3_~"), &upd("4_~")), h(asb, ty, "G", "k", "r", &rich("~_5"), &upd("~_6")), "R".into(),
+                h(at, ty, "V", s1, "r", &upd("7_~"), &upd("8_~")), h(asb, ty, "G", s2, "r", &small("~"), &upd("~_9")), h(a, ty, "G", s3, "r", &small("1_~"), &small("~")), "R".into(),
+                h(asb, "111", "G", "k", "r", &small("~"), &small("~"))];
+            let mut c = mk(&[a, at, asb], ops, "dotted", false); c.tags.push(("names".into(), pname.to_string())); emit(c);
+        } }
+    }
+    // 5b. directed "empties": nothing vs. the empty value for every part of a result (no metadata / empty table, no env / empty
+    //     env, no exec.d programs, no SBOMs, no files) after a rich result, by update and by recreate, then restore and keep
+    for m in ["~", "~_~"] { for e in ["~", "-"] { for x in [true, false] { for sb in [true, false] { for st in ["u", "r"] {
+        let res = render(m, &Parts { env: if e == "~" { None } else { Some(vec![]) }, execd: if x { vec![] } else { full.execd.clone() }, sboms: if sb { vec![] } else { full.sboms.clone() }, files: vec![] });
+        let ops = vec![first.clone(), h(&a, "111", "G", st, "r", &res, &res), "R".into(), h(&a, "111", "G", "k", "r", &small("~"), &small("~")), h(&a, "110", "G", "u", "r", &small("~"), &render("~_9", &full))];
+        emit(mk(&[&a, &at], ops, "empties", false));
+    } } } } }
+    // 5c. directed "chain": keep / update chains over 3..6 (thorough ..9) restores, the types and the strategy changing along the
+    //     chain (cache stays on, so the layer survives), ending in recreate, restore, keep
+    let max_chain = if tier == "thorough" { 9 } else { 6 };
+    for len in 3..=max_chain { for variant in 0..4usize { for mt in ["G", "V"] {
+        let meta = |i: usize| if mt == "V" { format!("{}_~", INTS[i % 8]) } else { format!("~_{}", INTS[i % 8]) };
+        let mut ops = vec![h(&a, "111", mt, "k", "r", &rich(&meta(0)), &upd(&meta(1)))];
+        for i in 0..len {
+            ops.push("R".into());
+            let ty = ["111", "011", "101", "001"][(i + variant) % 4];
+            let st = ["k", "k", "u", "k"][(i + variant) % 4];
+            ops.push(h(&a, ty, mt, st, "r", &small(&meta(i)), &upd(&meta(i + 2))));
+        }
+        ops.push("R".into()); ops.push(h(&a, "111", mt, "r", "r", &rich(&meta(5)), &small(&meta(0)))); ops.push("R".into()); ops.push(h(&a, "111", mt, "k", "r", &small(&meta(0)), &small(&meta(0))));
+        let mut c = mk(&[&a, &asb], ops, "chain", false); c.tags.push(("chain".into(), len.to_string())); emit(c);
+    } } }
+    // 5d. directed "retry": a populated, restored layer; a call that fails (strategy / update / create after recreate / migrate
+    //     callback fails, an exec.d source is missing, the metadata file is not a document), the same call again, then the
+    //     call with every strategy; restore; keep
+    let gone = format!("5_~!~!{}=~!-!-", hex(b"gone"));
+    let failing: Vec<(&str, Vec<String>)> = vec![
+        ("strategy", vec![h(&a, "111", "V", "f", "r", &rich("5_~"), &upd("6_~"))]),
+        ("update", vec![h(&a, "111", "V", "u", "r", &rich("5_~"), "f")]),
+        ("create", vec![h(&a, "111", "V", "r", "r", "f", &upd("6_~"))]),
+        ("execd", vec![h(&a, "111", "V", "u", "r", &rich("5_~"), &gone)]),
+        ("migrate", vec![h(&a, "111", "G", "u", "r", &small("~"), &upd("~_7")), "R".into(), h(&a, "111", "V", "k", "f", &rich("5_~"), &upd("6_~"))]),
+        ("broken", vec![format!("B.{a}"), h(&a, "111", "V", "k", "r", &rich("5_~"), &upd("6_~"))]),
+    ];
+    for (fname, fops) in &failing { for st in ["k", "u", "r"] { for mg in ["r", "p3_~"] {
+        let mut ops = vec![h(&a, "111", "V", "k", "r", &rich("4_~"), &upd("2_~")), "R".into()];
+        ops.extend(fops.iter().cloned()); ops.push(fops.last().unwrap().clone());
+        ops.push(h(&a, "111", "V", st, mg, &rich("5_~"), &upd("6_~"))); ops.push("R".into()); ops.push(h(&a, "101", "V", "k", mg, &small("9_~"), &small("9_~")));
+        let mut c = mk(&[&a, &at], ops, "retry", false); c.tags.push(("failing".into(), fname.to_string())); emit(c);
+    } } }
+    // 5e. directed "procs": per-process env for process types named like the phases or with dots / dashes / digits next to web
+    //     and worker; update keeps every subset of three of them (identical entries); restore; keep
+    let procs = ["P:776562", "P:6275696c64", "P:6c61756e6368", "P:772d312e78", "P:31"];
+    let penv: Vec<String> = procs.iter().enumerate().flat_map(|(i, pr)| vec![format!("{pr}/o/50415448/{}", hex(format!("/p{i}").as_bytes())), format!("{pr}/a/51/{}", hex(format!("q{i}").as_bytes()))]).chain(["L/p/50415448/2f6c".to_string(), "B/a/50415448/2f62".to_string()]).collect();
+    for mask in 0..32u32 { for st in ["u", "r"] {
+        let kept: Vec<String> = penv.iter().filter(|e| match procs.iter().position(|p| *p == scope_of(e)) { Some(i) => mask >> i & 1 == 1, None => true }).cloned().collect();
+        let r0 = render("~_9", &Parts { env: Some(penv.clone()), execd: vec![], sboms: vec![], files: vec![format!("{}=*", hex(b"bin"))] });
+        let r1 = render("~_9", &Parts { env: Some(kept), execd: vec![], sboms: vec![], files: vec![] });
+        let ops = vec![h(&a, "111", "G", "k", "r", &r0, &r0), h(&a, "111", "G", st, "r", &r1, &r1), "R".into(), h(&a, "111", "G", "k", "r", &r0, &r0)];
+        emit(mk(&[&a], ops, "procs", false));
     } }
+    // 5f. directed "links": bin / lib / include / pkgconfig as directories or symlinks (to a directory, a file, nothing) left by the
+    //     callback: the returned layer data must carry the implicit layer paths exactly as a reader of the directory finds them
+    let lk = ["*", "@D", "@F", "@x", "2a"];
+    for (i, kb) in lk.iter().enumerate() { for (j, kl) in lk.iter().enumerate() { for st in ["k", "u", "r"] {
+        let files = vec![format!("{}={kb}", hex(b"bin")), format!("{}={kl}", hex(b"lib")), format!("{}={}", hex(b"include"), lk[(i + j) % 5]), format!("{}={}", hex(b"pkgconfig"), lk[(i + 2 * j + 1) % 5])];
+        let r0 = render("~_9", &Parts { env: Some(vec!["B/a/50415448/2f62".into(), "L/o/4c445f4c4942524152595f50415448/2f6c".into()]), execd: vec![], sboms: vec![], files });
+        let r1 = render("~_9", &Parts { env: Some(vec!["A/p/50415448/2f61".into()]), execd: vec![], sboms: vec![], files: vec![format!("{}={}", hex(b"bin"), lk[(i + 1) % 5])] });
+        let ops = vec![h(&a, "111", "G", "k", "r", &r0, &r0), "R".into(), h(&a, "111", "G", st, "r", &r1, &r1), "R".into(), h(&a, "111", "G", "k", "r", &r0, &r0)];
+        emit(mk(&[&a, &at], ops, "links", false));
+    } } }
+    // 5g. directed "big": container sizes on both sides of 16/20/32/64/128 - env entries (all scopes, many process types), exec.d
+    //     programs, SBOM bytes, files, layers - created, restored, kept, updated to one element less, restored, recreated
+    let sizes: Vec<usize> = if tier == "thorough" { vec![15, 16, 17, 18, 19, 20, 21, 22, 31, 32, 33, 34, 63, 64, 65, 66, 127, 128, 129, 130] } else { vec![17, 21, 33, 65, 129] };
+    for &n in &sizes {
+        // `k` entries in ONE env directory (`env` / `env.launch`) or, for `procs`, one entry in each of `k` process directories;
+        // plus one entry in every other scope
+        let benv = |k: usize, main: &str| -> Vec<String> { let mut e: Vec<String> = (0..k).map(|i| { let sc = if main == "procs" { format!("P:{}", hex(format!("proc{i:03}").as_bytes())) } else { main.to_string() };
+            format!("{sc}/{}/{}/{}", ["a", "d", "m", "o", "p"][i % 5], hex(format!("V{:03}", i / 5).as_bytes()), hex(format!("v{i}").as_bytes())) }).collect();
+            for sc in ["A", "B", "L", "P:776562"] { if sc != main { e.push(format!("{sc}/a/{}/{}", hex(b"V000"), hex(b"other"))); } } e };
+        let bprogs = |k: usize| -> Vec<String> { (0..k).map(|i| format!("{}={}", hex(format!("prog{i:03}").as_bytes()), hex(format!("#!{i}").as_bytes()))).collect() };
+        let bfiles = |k: usize| -> Vec<String> { (0..k).map(|i| format!("{}={}", hex(format!("f{i:03}").as_bytes()), if i % 9 == 8 { "*".to_string() } else { hex(format!("{i}").as_bytes()) })).collect() };
+        let bsboms = |k: usize| -> Vec<String> { (0..3).map(|i| format!("{i}={}", hex(&vec![b'a' + i as u8; k]))).collect() };
+        for (what, p0, p1) in [
+            ("env-all", Parts { env: Some(benv(n, "A")), ..Default::default() }, Parts { env: Some(benv(n - 1, "A")), ..Default::default() }),
+            ("env-launch", Parts { env: Some(benv(n, "L")), ..Default::default() }, Parts { env: Some(benv(n - 1, "L")), ..Default::default() }),
+            ("env-procs", Parts { env: Some(benv(n, "procs")), ..Default::default() }, Parts { env: Some(benv(n - 1, "procs")), ..Default::default() }),
+            ("execd", Parts { execd: bprogs(n), ..Default::default() }, Parts { execd: bprogs(n - 1), ..Default::default() }),
+            ("files", Parts { files: bfiles(n), ..Default::default() }, Parts { files: vec![format!("{}=", hex(b"f000"))], ..Default::default() }),
+            ("all", Parts { env: Some(benv(n, "B")), execd: bprogs(n), sboms: bsboms(n), files: bfiles(n) }, Parts { env: Some(benv(n + 1, "B")), execd: bprogs(n + 1), sboms: bsboms(n + 1), files: vec![] }),
+        ] {
+            if what == "all" && n > 66 && tier != "thorough" { continue; }
+            let (r0, r1) = (render("~_9", &p0), render("~_8", &p1));
+            let ops = vec![h(&a, "111", "G", "k", "r", &r0, &r1), "R".into(), h(&a, "111", "G", "k", "r", &r0, &r1), h(&a, "111", "G", "u", "r", &r0, &r1), "R".into(), h(&a, "101", "G", "r", "r", &r1, &r0)];
+            let mut c = mk(&[&a, &at], ops, "big", false); c.tags.push(("big".into(), what.into())); c.tags.push(("size".into(), n.to_string())); emit(c);
+        }
+        if n <= 66 || tier == "thorough" {
+            let names: Vec<String> = (0..n).map(|i| hex(format!("l{i:03}").as_bytes())).collect();
+            let mut ops: Vec<String> = names.iter().enumerate().map(|(i, l)| h(l, ["111", "101", "011", "110", "001"][i % 5], "G", "k", "r", &if i % 4 == 0 { rich("~_9") } else { small(&format!("~_{i}")) }, &small("~"))).collect();
+            ops.push("R".into());
+            ops.push(h(&names[n / 2], "111", "G", "r", "r", &small("~_1"), &small("~"))); ops.push(h(&names[0], "111", "G", "u", "r", &small("~"), &upd("~_2"))); ops.push(h(&names[n - 1], "111", "G", "k", "r", &small("~"), &small("~")));
+            ops.push(format!("B.{}", names[1])); ops.push(h(&names[1], "111", "G", "k", "r", &small("~"), &small("~")));
+            let nr: Vec<&str> = names.iter().map(String::as_str).collect();
+            let mut c = mk(&nr, ops, "big", false); c.tags.push(("big".into(), "layers".into())); c.tags.push(("size".into(), n.to_string())); emit(c);
+        }
+    }
     // 6. sampled histories over two or three names; the results of successive calls on a layer are correlated
     let samples = if tier == "thorough" { 30_000 } else { 2_000 };
     for idx in 0..samples {
         let mut r = Rng::for_case(seed, idx);
-        let names: Vec<&str> = match r.below(4) { 0 | 1 => vec![a.as_str(), at.as_str(), asb.as_str()], 2 => vec![a.as_str(), b.as_str()], _ => vec![a.as_str(), b.as_str(), c.as_str()] };
+        let pool_names: Vec<String>;
+        let names: Vec<&str> = match r.below(6) { 0 | 1 => vec![a.as_str(), at.as_str(), asb.as_str()], 2 => vec![a.as_str(), b.as_str()], 3 => vec![a.as_str(), b.as_str(), c.as_str()],
+            _ => { pool_names = r.pick(&pools).1.iter().map(|n| hex(n.as_bytes())).collect(); pool_names.iter().map(String::as_str).collect() } };
         let len = 1 + r.below(10);
         let mut ops: Vec<String> = vec![]; let mut xkeys = false;
         let mut base: std::collections::HashMap<&str, Parts> = std::collections::HashMap::new();
@@ -430,6 +563,26 @@ fn generate(tier: &str, seed: u64, emit: &mut dyn FnMut(Case)) {
         }
         emit(mk(&names, ops, "rnd", xkeys));
     }
+}
+
+/// layer-name universes (same as C01's): names that share a dotted prefix / look like another layer's files / differ by case or
+/// one character / carry unusual characters / are long. (A layer named `<other>.toml` or `<other>.sbom.<fmt>.json` would *be* the
+/// other layer's file: such pairs cannot both satisfy the property and are left out.)
+fn name_pools() -> Vec<(&'static str, Vec<String>)> {
+    let long = "n".repeat(200);
+    let long2 = format!("{}.x", "n".repeat(198));
+    vec![
+        ("dotted", vec!["a".into(), "a.tools".into(), "a.sbom".into()]),
+        ("deep", vec!["a".into(), "a.b".into(), "a.b.c".into()]),
+        ("filelike", vec!["a".into(), "a.sbom.cdx".into(), "a.toml.x".into()]),
+        ("filelike2", vec!["a.sbom".into(), "a.sbom.spdx".into(), "a.sbom.cdx.json.x".into()]),
+        ("case", vec!["a".into(), "A".into(), "a.A".into()]),
+        ("edit", vec!["a".into(), "ab".into(), "a-b".into()]),
+        ("chars", vec!["Abc 123.-_!".into(), "123".into(), "\u{fc}-\u{5c42}".into()]),
+        ("hidden", vec![".hidden".into(), "..x".into(), "x.".into()]),
+        ("phase", vec!["build-foo".into(), "launch.x".into(), "store.build".into()]),
+        ("long", vec![long, long2, "n".into()]),
+    ]
 }
 
 fn main() { main_loop_jobs("c02", 12, &generate, &run_case); }
